@@ -46,7 +46,9 @@ def budget(tier):
 META = [b"(", b")", b"[", b"]", b"{", b"}", b"*", b"+", b"?", b"|", b"\\", b"^", b"$", b".", b"-", b",", b":", b"[:", b":]", b"[=", b"\\<", b"\\>",
         b"{1,2}", b"{3,1}", b"(((((((((((((a{3}){3}){2}){4}){4}){3}){2}){3}){3}){3}){2}){2}){2})", b"((((((((((((((((a{2}){2}){2}){2}){2}){2}){2}){2}){2}){2}){2}){2}){2}){2}){2}){2})",
         b"foo{9999}", b"ba{3,1}", b"ya{200}", b"b|a{3,1}", b"{2,0}", b"a{1,0}", b"{0,0}", b"{,0}", b"(ab){3,0}", b"{200}", b"{1,200}", b"{,}", b"{99999999999}", b"{-1}", b"a{2}{3}", b"[[:alpha:]]", b"[[:", b"[^", b"[]", b"[a-", b"[z-a]",
-        b"(a)" * 33, b"(" * 70 + b"a" + b")" * 70, b"a?" * 40, b"(a|b)", b"\xc3", b"\xe6\x97", b"\xf0\x9f\x98", b"\xf6", b"\xff", b"\x80", b"\xc3\xa9", b"\xe6\x97\xa5"]
+        b"(a)" * 33, b"(" * 70 + b"a" + b")" * 70, b"a?" * 40, b"(a|b)", b"\xc3", b"\xe6\x97", b"\xf0\x9f\x98", b"\xf6", b"\xff", b"\x80", b"\xc3\xa9", b"\xe6\x97\xa5",
+        # overlong forms: they decode to the code of a character of the test lines (a 1 é x) but have another length
+        b"\xc1\xa1", b"\xc0\xb1", b"\xe0\x81\xa1", b"\xe0\x83\xa9", b"\xf0\x80\x81\xa1", b"\xc1\xb8", b"a\xc1\xa1", b"\xc1\xa1\xc1\xa1\xc1\xa1"]
 piece = st.one_of(st.sampled_from(META), st.sampled_from(META), st.binary(min_size=1, max_size=4), st.sampled_from([b"a", b"b", b"ab", b"1", b" "]))
 pattern_bytes = st.lists(piece, min_size=1, max_size=10).map(b"".join).map(lambda b: b.replace(b"\x00", b"a").replace(b"\n", b"b")[:300])
 
